@@ -433,6 +433,15 @@ PPL::Grid::relation_with(const Congruence& cg) const {
 
   PPL_DIRTY_TEMP_COEFFICIENT(div);
   div = cg.modulus();
+  // The scalar products computed below are scaled by the (common)
+  // divisor of the generators: scale the modulus by the same factor.
+  for (Grid_Generator_System::const_iterator i = gen_sys.begin(),
+         i_end = gen_sys.end(); i != i_end; ++i) {
+    if (i->is_point()) {
+      div *= i->divisor();
+      break;
+    }
+  }
 
   PPL_DIRTY_TEMP_COEFFICIENT(sp);
 
@@ -490,7 +499,7 @@ PPL::Grid::relation_with(const Congruence& cg) const {
 
     case Grid_Generator::PARAMETER:
       if (cg.is_proper_congruence()) {
-        sp %= (div * g.divisor());
+        sp %= div;
       }
       if (sp == 0) {
         // Parameter g satisfies the cg so the relation depends
